@@ -1,0 +1,38 @@
+//go:build verif
+
+package testutil
+
+// Contracts read by /verif/gocv (comments only; compiled only under -tags verif).
+//
+// C15: EphemeralContractor is the reference implementation of rhp4.Contractor that the RHP
+// handlers are verified against (their interface contracts are in rhp/v4/contracts_server_verif.go).
+// Its account -> pools links are a representation with an invariant of their own: the links of one
+// account are pairwise distinct (DebitAccount counts a pool's balance once per link, DetachPools
+// removes one link), and the lists of two accounts do not share memory.
+//@ pred linksDistinct(ec *EphemeralContractor) = forall a proto4.Account, i int, j int :: { ec.attached[a][i], ec.attached[a][j] } 0 <= i && i < j && j < len(ec.attached[a]) ==> ec.attached[a][i] != ec.attached[a][j]
+//@ pred linksApart(ec *EphemeralContractor) = forall a proto4.Account, b proto4.Account :: { ec.attached[a], ec.attached[b] } a != b && cap(ec.attached[a]) > 0 && cap(ec.attached[b]) > 0 ==> !sameArray(ec.attached[a], ec.attached[b])
+//@ pred linked(ec *EphemeralContractor, account proto4.Account, pool proto4.Account) = exists i int :: 0 <= i && i < len(ec.attached[account]) && ec.attached[account][i] == pool
+//
+//@ extern (*sync.Mutex).Lock
+//@   assigns nothing
+//@ extern (*sync.Mutex).Unlock
+//@   assigns nothing
+//
+// AttachPools: every pool must exist or nothing happens; afterwards every attachment is linked,
+// and no account has the same pool linked twice.
+//@ func (*EphemeralContractor).AttachPools props C15
+//@   nopanic
+//@   requires ec != nil && ec.pools != nil && ec.attached != nil && linksDistinct(ec) && linksApart(ec)
+//@   requires [error-values] proto4.ErrPoolNotFound != nil
+//@   loop "range attachments"
+//@     invariant [exist] forall k int :: { attachments[k] } 0 <= k && k <= rangeindex ==> (attachments[k].Pool in ec.pools)
+//@   loop "range attachments" #2
+//@     invariant [exist] forall k int :: { attachments[k] } 0 <= k && k < len(attachments) ==> (attachments[k].Pool in ec.pools)
+//@     invariant [rep] linksDistinct(ec) && linksApart(ec)
+//@     invariant [done] forall k int :: { attachments[k] } 0 <= k && k <= rangeindex ==> linked(ec, attachments[k].Account, attachments[k].Pool)
+//@   loop "range ec.attached[a.Account]"
+//@     invariant [scan] !already ==> (forall i int :: { ec.attached[a.Account][i] } 0 <= i && i <= rangeindex ==> ec.attached[a.Account][i] != a.Pool)
+//@   ensures [rep] linksDistinct(ec) && linksApart(ec)
+//@   ensures [pools-exist] result == nil ==> (forall k int :: { attachments[k] } 0 <= k && k < len(attachments) ==> (attachments[k].Pool in ec.pools))
+//@   ensures [error-no-effect] result != nil ==> snapshot(ec.attached) == old(snapshot(ec.attached))
+//@   ensures [attached] result == nil ==> (forall k int :: { attachments[k] } 0 <= k && k < len(attachments) ==> linked(ec, attachments[k].Account, attachments[k].Pool))
